@@ -292,6 +292,8 @@ def clause_failures(a, rng=None, vdirs=()):
     d = Atom(a)
     f = d.anisotropy
     d.anisotropy = not f
+    if not close(float(d.Uisoequiv), ue):
+        bad.append(("switching the flag keeps Uisoequiv", "before %r, after switching the flag %s -> %s: %r" % (ue, f, not f, float(d.Uisoequiv))))
     d.anisotropy = f
     if not close(float(d.Uisoequiv), ue):
         bad.append(("flag off/on keeps Uisoequiv", "before %r after %r (flag %s)" % (ue, float(d.Uisoequiv), f)))
